@@ -1,11 +1,17 @@
 use crate::engine::Ctx;
 
 pub mod c01;
+pub mod c02;
+pub mod c03;
+pub mod c04;
 pub mod c36;
 
 pub fn run(ctx: &Ctx, id: &str) -> bool {
     match id {
         "C01" => c01::run(ctx),
+        "C02" => c02::run(ctx),
+        "C03" => c03::run(ctx),
+        "C04" => c04::run(ctx),
         "C36" => c36::run(ctx),
         _ => return false,
     }
